@@ -166,6 +166,7 @@ pub enum Step {
     Leveled { safe_wm: bool },
     Major { safe_wm: bool },
     MoveDown { from: u8, to: u8 },
+    PullDown { from: u8, to: u8 },
     DropRange { k: u8 },
     /// take a snapshot the writer has published, then get every key and scan
     Read,
@@ -279,6 +280,11 @@ fn run_step(sh: &Shared, step: &Step, tid: usize) {
         Step::MoveDown { from, to } => {
             if let Err(e) = t.compact(Arc::new(lsm_tree::compaction::MoveDown(*from, *to)), 0) {
                 err("compact(movedown)", format!("{e:?}"));
+            }
+        }
+        Step::PullDown { from, to } => {
+            if let Err(e) = t.compact(Arc::new(lsm_tree::compaction::PullDown(*from, *to)), 0) {
+                err("compact(pulldown)", format!("{e:?}"));
             }
         }
         Step::DropRange { k } => {
@@ -553,12 +559,23 @@ pub fn scenarios(tier: &str) -> Vec<Scenario> {
     ];
     let w3 = vec![Step::Put { k: 0 }, Step::Put { k: 1 }, Step::Del { k: 0 }];
     let w2 = vec![Step::Put { k: 0 }, Step::Put { k: 1 }];
+    // preload for the pull-down scenario: data in L2, two runs in L0
+    let preload_pd = vec![
+        Op::MultiPut { ks: vec![0, 1] },
+        fl.clone(),
+        Op::MoveDown { from: 0, to: 2, w: Wm::Zero },
+        Op::Put { k: 0, big: false },
+        fl.clone(),
+        Op::Put { k: 1, big: false },
+        fl.clone(),
+    ];
     let mut v = vec![
         Scenario {
-            name: "S1-writer-flusher-reader".into(),
+            // a rotation by another thread lands between the flusher's two critical sections
+            name: "S1-writer-flusher-rotator-reader".into(),
             cfg: cfg.clone(),
             preload: preload.clone(),
-            threads: vec![w3.clone(), vec![Step::RotateFlush { safe_wm: true }, Step::RotateFlush { safe_wm: false }], vec![Step::Read, Step::Read]],
+            threads: vec![w2.clone(), vec![Step::RotateFlush { safe_wm: true }], vec![Step::Rotate], vec![Step::Read]],
             writer: 0,
         },
         Scenario {
@@ -569,6 +586,14 @@ pub fn scenarios(tier: &str) -> Vec<Scenario> {
             writer: 0,
         },
         Scenario {
+            // two merges over overlapping inputs: the second must be declined while the first hides its tables
+            name: "S8-pulldown-flush-pulldown-reader".into(),
+            cfg: cfg.clone(),
+            preload: preload_pd.clone(),
+            threads: vec![vec![Step::Put { k: 0 }, Step::RotateFlush { safe_wm: false }], vec![Step::PullDown { from: 0, to: 2 }], vec![Step::PullDown { from: 0, to: 2 }], vec![Step::Read]],
+            writer: 0,
+        },
+        Scenario {
             name: "S4-writer-flusher-major-reader".into(),
             cfg: cfg.clone(),
             preload: preload.clone(),
@@ -576,6 +601,15 @@ pub fn scenarios(tier: &str) -> Vec<Scenario> {
             writer: 0,
         },
     ];
+    if !quick {
+        v.push(Scenario {
+            name: "S1b-writer-flusher-reader".into(),
+            cfg: cfg.clone(),
+            preload: preload.clone(),
+            threads: vec![w3.clone(), vec![Step::RotateFlush { safe_wm: true }, Step::RotateFlush { safe_wm: false }], vec![Step::Read, Step::Read]],
+            writer: 0,
+        });
+    }
     if !quick {
         v.push(Scenario {
             name: "S3-two-compactors-flusher-reader".into(),
